@@ -1492,6 +1492,21 @@ def build(template_text: str, repo: str, unit: str) -> Built:
                 emit(ctxt)
                 auto_consts.add(cname)
                 rep.append(("R15", f"const {cname} of {rel} extracted automatically"))
+            # R15b: likewise a type alias of the same source file (`type Aes128Ctr = ctr::Ctr128BE<aes::Aes128>;`)
+            for tname in sorted(set(re.findall(r"\b[A-Z][a-z0-9]+[A-Za-z0-9]*\b", text))):
+                if tname in auto_consts or re.search(r"\b(struct|enum|type|trait|mod|fn|impl(<[^>]*>)?)\s+" + re.escape(tname) + r"\b", template_text + "\n".join(out_lines)):
+                    continue
+                try:
+                    titem, _ = sf.find(kind="type", name=tname)
+                except (AnchorLost, Exception):
+                    continue
+                ttoks = rw_vis(rw_strip_comments(list(sf.toks[titem.start:titem.end]), rep), rep)
+                fs = next((t for t in ttoks if t.kind not in (WS, COMMENT)), None)
+                ttxt = ("pub " if fs is not None and fs.kind == IDENT and fs.text == "type" else "") + text_of(ttoks)
+                emit(f"// ---- auto-extracted (R15b) {rel}:{sf.line_of(titem.start)} :: type {tname} ----")
+                emit(ttxt)
+                auto_consts.add(tname)
+                rep.append(("R15", f"type alias {tname} of {rel} extracted automatically"))
             first = len(out_lines) + 1
             # emit line by line, picking up label markers
             for ln in text.split("\n"):
